@@ -82,6 +82,10 @@ func pathCorpus(g *Gen, emit func(string)) {
 			emit(nm)
 		}
 	}
+	// letter case matters
+	for _, nm := range []string{"A", "a/B.go", "PKG/a.go", "pkg/A.go", "./A", "x/../A.go", "doc/README.md", "\u212a.go", "\uff21.go", "\u0130x"} {
+		emit(nm)
+	}
 	// invisible or special leading characters are ordinary file-name bytes: nothing is trimmed
 	for _, pre := range []string{"\xef\xbb\xbf", "\xe2\x80\x8b", " ", "\t", "\x00", "~", "-", "\xc2\xa0"} {
 		for _, rest := range []string{"", "/etc/cron.d/job", "../x", "gen/a.go", "./a", "a", "/", ".."} {
